@@ -23,6 +23,7 @@ type StructOpts struct {
 	LLInt   reflect.Type // element type of an int32 leaf-list (nil: IntType)
 	ListPtr bool
 	Embed   bool
+	Tags    bool // fields carry `yang:"<name>"` tags, have unrelated Go names and are declared in reverse order
 }
 
 func FieldName(n string) string {
@@ -31,6 +32,30 @@ func FieldName(n string) string {
 }
 
 var strType = reflect.TypeOf("")
+
+// fieldOf finds the field that holds the node: by yang tag, else by Go name, also inside embedded structs
+func fieldOf(v reflect.Value, name string) reflect.Value {
+	t := v.Type()
+	for i := 0; i < t.NumField(); i++ {
+		f := t.Field(i)
+		if f.Anonymous {
+			if r := fieldOf(v.Field(i), name); r.IsValid() {
+				return r
+			}
+			continue
+		}
+		if tag, ok := f.Tag.Lookup("yang"); ok {
+			if tag == name {
+				return v.Field(i)
+			}
+			continue
+		}
+		if f.Name == FieldName(name) {
+			return v.Field(i)
+		}
+	}
+	return reflect.Value{}
+}
 
 func leafType(s *SNode, o StructOpts) reflect.Type {
 	t := strType
@@ -50,6 +75,10 @@ func StructType(kids []*SNode, nkeys int, o StructOpts) reflect.Type {
 	var fields []reflect.StructField
 	for _, s := range kids {
 		f := reflect.StructField{Name: FieldName(s.Name)}
+		if o.Tags {
+			f.Tag = reflect.StructTag(fmt.Sprintf(`yang:"%s"`, s.Name))
+			f.Name = fmt.Sprintf("Fld%d", len(fields))
+		}
 		switch s.Kind {
 		case "leaf":
 			f.Type = leafType(s, o)
@@ -66,6 +95,12 @@ func StructType(kids []*SNode, nkeys int, o StructOpts) reflect.Type {
 			continue
 		}
 		fields = append(fields, f)
+	}
+	if o.Tags {
+		for i, j := 0, len(fields)-1; i < j; i, j = i+1, j-1 {
+			fields[i], fields[j] = fields[j], fields[i]
+		}
+		return reflect.StructOf(fields)
 	}
 	if o.Embed && len(fields)-nkeys >= 3 {
 		n := len(fields)
@@ -106,7 +141,7 @@ func setLeaf(s *SNode, text string, f reflect.Value) {
 
 func fillStruct(kids []*SNode, body []*DNode, v reflect.Value, o StructOpts) {
 	for i, s := range kids {
-		f := v.FieldByName(FieldName(s.Name))
+		f := fieldOf(v, s.Name)
 		if !f.IsValid() {
 			continue
 		}
@@ -147,7 +182,7 @@ func FromStruct(kids []*SNode, v reflect.Value, nkeys int) []*DNode {
 	}
 	out := EmptyBody(kids)
 	for i, s := range kids {
-		f := v.FieldByName(FieldName(s.Name))
+		f := fieldOf(v, s.Name)
 		if !f.IsValid() {
 			continue
 		}
